@@ -1757,8 +1757,8 @@ class BaseSQL(
         else:
             p[0] = p[1]
             if len(p) == 3:
-                if p_list[-1] in ["DESC", "ASC"]:
-                    p[0]["detailed_columns"][0]["order"] = p_list[-1]
+                if p_list[-1].upper() in ["DESC", "ASC"]:
+                    p[0]["detailed_columns"][0]["order"] = p_list[-1].upper()
                 else:
                     p[0]["detailed_columns"][0]["nulls"] = p_list[-1]
 
@@ -1863,10 +1863,10 @@ class BaseSQL(
             order = None
             column = None
             for item in p_list[-1]:
-                if item not in ["ASC", "DESC"]:
+                if item.upper() not in ["ASC", "DESC"]:
                     column = item
                 else:
-                    order = item
+                    order = item.upper()
                 if column and order:
                     columns.append({"column": column, "order": order})
                     column = None
@@ -1879,7 +1879,7 @@ class BaseSQL(
     def process_order_in_pk(data: Dict, p_list: List) -> Dict:
         columns = []
         for item in p_list[-1]:
-            if item not in ["ASC", "DESC"]:
+            if item.upper() not in ["ASC", "DESC"]:
                 columns.append(item)
         data["primary_key"] = columns
         return data
